@@ -9,53 +9,53 @@ open Gojq Gojq.VM
 
 /-- breakers whose backtrack branch only breaks the loop -/
 def trivB : Shape → Bool
-  | .forktryend | .object _ | .backtrack | .index | .indexarray | .call _ | .callNative _ _ | .ret | .pathend => true
+  | .forktryend | .object _ | .backtrack | .index _ | .indexarray _ | .call _ | .callNative _ _ | .ret | .pathend => true
   | _ => false
 
-theorem BConf.triv {S : SC} {fne : Prop} {pc err stk fr} {i : Shape} (hc : codeAt S pc = some i)
-    (hi : trivB i = true) : BConf S fne pc err stk fr := by
+theorem BConf.triv {S : SC} {fne : Prop} {pc err stk pa fr} {i : Shape} (hc : codeAt S pc = some i)
+    (hi : trivB i = true) : BConf S fne pc err stk pa fr := by
   unfold BConf
   rw [hc]
   cases i <;> first | trivial | cases hi
 
 theorem Inv.cases {S : SC} {l : L} {e : Env} (hI : Inv S l e) :
-    (l.backtrack = true ∧ ∃ A, View e A ∧ GInv S e ∧ ForksConf S A.forks ∧ BMode S l e A) ∨
-    (l.backtrack = false ∧ ∃ A, View e A ∧ GInv S e ∧ ForksConf S A.forks ∧ NMode S l e A) := by
-  obtain ⟨A, hV, G, hF, hM⟩ := hI
+    (l.backtrack = true ∧ ∃ A, View e A ∧ GInv S e ∧ ForksConf S A.forks ∧ PathsInv A ∧ BMode S l e A) ∨
+    (l.backtrack = false ∧ ∃ A, View e A ∧ GInv S e ∧ ForksConf S A.forks ∧ PathsInv A ∧ NMode S l e A) := by
+  obtain ⟨A, hV, G, hF, hP, hM⟩ := hI
   by_cases hbt : l.backtrack = true
-  · rw [if_pos hbt] at hM; exact .inl ⟨hbt, A, hV, G, hF, hM⟩
-  · rw [if_neg hbt] at hM; exact .inr ⟨by simpa using hbt, A, hV, G, hF, hM⟩
+  · rw [if_pos hbt] at hM; exact .inl ⟨hbt, A, hV, G, hF, hP, hM⟩
+  · rw [if_neg hbt] at hM; exact .inr ⟨by simpa using hbt, A, hV, G, hF, hP, hM⟩
 
 /-- the backtrack-mode configuration at an instruction inside the code -/
 theorem BMode.conf {S : SC} {l : L} {e : Env} {A : AView} (h : BMode S l e A) {i : Shape}
-    (hc : codeAt S l.pc = some i) : BConf S (A.forks ≠ []) l.pc l.err A.stk A.frames := by
+    (hc : codeAt S l.pc = some i) : BConf S (A.forks ≠ []) l.pc l.err A.stk A.paths A.frames := by
   rcases h.2 with h | h
   · have := codeAt_range hc; omega
   · exact h
 
 theorem Post.brk {S : SC} {l : L} {e' : Env} {A' : AView} (hV : View e' A') (G : GInv S e')
-    (hF : ForksConf S A'.forks) (he : eokO S e'.scopes.data.size l.err)
-    (hr : A'.forks = [] → l.err ≠ none → BConf S False l.pc none A'.stk A'.frames) :
-    Post S (.brk, l) e' := ⟨A', hV, G, hF, he, hr⟩
+    (hF : ForksConf S A'.forks) (hP : PathsInv A') (he : eokO S e'.scopes.data.size l.err)
+    (hr : A'.forks = [] → l.err ≠ none → BConf S False l.pc none A'.stk A'.paths A'.frames) :
+    Post S (.brk, l) e' := ⟨A', hV, G, hF, hP, he, hr⟩
 
 theorem eokO_none (S : SC) (n : Int) : eokO S n none := fun _ h => by simp at h
 
 /-- a breaker entered in backtrack mode just breaks the loop -/
 theorem Post.brk_triv {S : SC} {l : L} {e : Env} {A : AView} (hV : View e A) (G : GInv S e)
-    (hF : ForksConf S A.forks) (hM : BMode S l e A) {i : Shape} (hc : codeAt S l.pc = some i)
+    (hF : ForksConf S A.forks) (hP : PathsInv A) (hM : BMode S l e A) {i : Shape} (hc : codeAt S l.pc = some i)
     (hi : trivB i = true) : Post S (.brk, l) e :=
-  Post.brk hV G hF hM.1 (fun _ _ => BConf.triv hc hi)
+  Post.brk hV G hF hP hM.1 (fun _ _ => BConf.triv hc hi)
 
 /-! ## `pushfork`, `pushforkOver` -/
 
 theorem ForksConf.cons {S : SC} {f : FView} {rest : List FView}
-    (h : ∀ err, BConf S (rest ≠ []) f.pc err f.stk f.frames) (hr : ForksConf S rest) : ForksConf S (f :: rest) :=
+    (h : ∀ err, BConf S (rest ≠ []) f.pc err f.stk f.paths f.frames) (hr : ForksConf S rest) : ForksConf S (f :: rest) :=
   ⟨h, hr⟩
 
 theorem pushforkOver_spec {S : SC} {e : Env} {A : AView} (hV : View e A) (G : GInv S e) {v : V}
     (hv : VOK S e v) (pc : Int) :
     ∃ e' j, pushforkOver v pc e = .ok () e' ∧
-      View e' { A with forks := ⟨pc, (j, v) :: A.stk, A.frames⟩ :: A.forks } ∧ GInv S e' ∧
+      View e' { A with forks := ⟨pc, (j, v) :: A.stk, A.frames, A.paths⟩ :: A.forks } ∧ GInv S e' ∧
       e'.scopes.data = e.scopes.data ∧ e'.scopes.index = e.scopes.index ∧ e'.values = e.values ∧
       e'.offset = e.offset ∧ e'.label = e.label ∧ e'.expdepth = e.expdepth ∧ e'.paths.data = e.paths.data := by
   have hV1 := hV.push v
@@ -87,7 +87,7 @@ theorem popscope_spec {S : SC} {e : Env} {A : AView} (hV : View e A) (G : GInv S
   simp only at hsave
   refine ⟨{ e with scopes := { e.scopes with index := nx },
                    offset := if e.scopes.index > e.scopes.limit then s.offset else e.offset }, ?_,
-    ⟨hV.stack, hv, hV.pcs⟩, ⟨G.save, G.slots, G.outer, G.stk, G.vals, ?_, G.off.2⟩, hsave, rfl, rfl, rfl, rfl⟩
+    ⟨hV.stack, hv, hV.paths, hV.pcs⟩, ⟨G.save, G.slots, G.outer, G.stk, G.vals, ?_, G.off.2⟩, hsave, rfl, rfl, rfl, rfl⟩
   · unfold popscope
     simp only [hp]
   · show 0 ≤ (if e.scopes.index > e.scopes.limit then s.offset else e.offset)
@@ -106,21 +106,30 @@ theorem Env.setIndex_self {e : Env} {k : Int} (h : e.scopes.index = k) :
 
 /-! ## fork-like instructions -/
 
+theorem PathsInv.pushfork {A : AView} (hP : PathsInv A) (pc : Int) (stk : List (Int × V)) :
+    PathsInv { A with forks := ⟨pc, stk, A.frames, A.paths⟩ :: A.forks } := by
+  refine ⟨hP.1, ?_⟩
+  intro f hf
+  simp only [List.mem_cons] at hf
+  rcases hf with rfl | hf
+  · exact hP.1
+  · exact hP.2 f hf
+
 /-- normal mode of `fork` / `forkalt` / `forktrybegin` / `forktryend`: push a fork, fall through -/
 theorem fork_normal {S : SC} {l : L} {e : Env} {A : AView} (hV : View e A) (G : GInv S e)
-    (hF : ForksConf S A.forks) (hb : l.backtrack = false) (herr : l.err = none) {a : Abs}
+    (hF : ForksConf S A.forks) (hP : PathsInv A) (hb : l.backtrack = false) (herr : l.err = none) {a : Abs}
     (hs : SuccOK S (l.pc + 1, { a with pend := true }))
-    (hconf : HConf S (A.forks ≠ []) a.h A.stk A.frames)
-    (hB : ∀ err, BConf S (A.forks ≠ []) l.pc err A.stk A.frames) :
+    (hconf : HConf S (A.forks ≠ []) a A.stk A.paths A.frames)
+    (hB : ∀ err, BConf S (A.forks ≠ []) l.pc err A.stk A.paths A.frames) :
     WP (do pushfork l.pc; pure (Ctl.fall, l) : M (Ctl × L)) (Post S) e := by
   apply WP.step (pushfork_eq _ _)
   apply WP.pure
-  refine Post.fall (hV.pushfork l.pc) (G.pushfork l.pc) (ForksConf.cons hB hF) hb ?_
-  exact NMode.fall hs herr (fun _ => by simp) (hconf.mono (fun _ => by simp) (Nat.le_refl _))
+  refine Post.fall (hV.pushfork l.pc) (G.pushfork l.pc) (ForksConf.cons hB hF) (hP.pushfork _ _) hb ?_
+  exact NMode.fall hs herr (fun _ => List.cons_ne_nil _ _) (hconf.mono (fun _ => List.cons_ne_nil _ _))
 
 theorem exec_fork {S : SC} (C : Checked S) {t : Int} {x : ExtRec} {l : L} {e : Env}
     (hc : codeAt S l.pc = some (.fork t)) (hI : Inv S l e) : WP (exec (.fork t) x l) (Post S) e := by
-  rcases hI.cases with ⟨hb, A, hV, G, hF, hM⟩ | ⟨hb, A, hV, G, hF, hN⟩
+  rcases hI.cases with ⟨hb, A, hV, G, hF, hP, hM⟩ | ⟨hb, A, hV, G, hF, hP, hN⟩
   · have hB := hM.conf hc
     have hB' := hB
     unfold BConf at hB'
@@ -133,7 +142,7 @@ theorem exec_fork {S : SC} (C : Checked S) {t : Int} {x : ExtRec} {l : L} {e : E
     simp only [exec, hb, if_true]
     split
     · apply WP.pure
-      exact Post.brk hV G hF hM.1 (fun hf _ => by
+      exact Post.brk hV G hF hP hM.1 (fun hf _ => by
         have := hB.mono (q := False) (fun h => h hf)
         rcases hle : l.err with _ | er
         · rw [hle] at this; exact this
@@ -141,19 +150,19 @@ theorem exec_fork {S : SC} (C : Checked S) {t : Int} {x : ExtRec} {l : L} {e : E
     · rename_i hnone
       apply WP.pure
       have herr : l.err = none := by cases h : l.err <;> simp_all
-      exact Post.jump hV G hF rfl (NMode.of_succ (succ2 hsucc).2 herr rfl hp hconf)
+      exact Post.jump hV G hF hP rfl (NMode.of_succ (succ2 hsucc).2 herr rfl hp hconf)
   · obtain ⟨herr, a, succs, ha, hst, hsucc, hpc, hp, hconf⟩ := hN.unpack C hc
     simp only [step1, Option.some.injEq] at hst
     subst hst
     rw [hpc] at hsucc
     rw [if_neg (by simp [isScope])] at hconf
     simp only [exec, hb]
-    exact fork_normal hV G hF hb herr (succ2 hsucc).1 hconf (fun err => by
+    exact fork_normal hV G hF hP hb herr (succ2 hsucc).1 hconf (fun err => by
       unfold BConf; simp only [hc]; exact ⟨a, ha, hconf, hp⟩)
 
 theorem exec_forkalt {S : SC} (C : Checked S) {t : Int} {x : ExtRec} {l : L} {e : Env}
     (hc : codeAt S l.pc = some (.forkalt t)) (hI : Inv S l e) : WP (exec (.forkalt t) x l) (Post S) e := by
-  rcases hI.cases with ⟨hb, A, hV, G, hF, hM⟩ | ⟨hb, A, hV, G, hF, hN⟩
+  rcases hI.cases with ⟨hb, A, hV, G, hF, hP, hM⟩ | ⟨hb, A, hV, G, hF, hP, hN⟩
   · have hB := hM.conf hc
     have hB' := hB
     unfold BConf at hB'
@@ -167,25 +176,25 @@ theorem exec_forkalt {S : SC} (C : Checked S) {t : Int} {x : ExtRec} {l : L} {e 
     split
     · rename_i hnone
       apply WP.pure
-      exact Post.brk hV G hF hM.1 (fun _ hne => by
+      exact Post.brk hV G hF hP hM.1 (fun _ hne => by
         cases h : l.err <;> simp_all)
     · apply WP.pure
-      exact Post.jump hV G hF rfl (NMode.of_succ (succ2 hsucc).2 rfl rfl hp hconf)
+      exact Post.jump hV G hF hP rfl (NMode.of_succ (succ2 hsucc).2 rfl rfl hp hconf)
   · obtain ⟨herr, a, succs, ha, hst, hsucc, hpc, hp, hconf⟩ := hN.unpack C hc
     simp only [step1, Option.some.injEq] at hst
     subst hst
     rw [hpc] at hsucc
     rw [if_neg (by simp [isScope])] at hconf
     simp only [exec, hb]
-    exact fork_normal hV G hF hb herr (succ2 hsucc).1 hconf (fun err => by
+    exact fork_normal hV G hF hP hb herr (succ2 hsucc).1 hconf (fun err => by
       unfold BConf; simp only [hc]; exact ⟨a, ha, hconf, hp⟩)
 
 theorem exec_forktryend {S : SC} (C : Checked S) {x : ExtRec} {l : L} {e : Env}
     (hc : codeAt S l.pc = some .forktryend) (hI : Inv S l e) : WP (exec .forktryend x l) (Post S) e := by
-  rcases hI.cases with ⟨hb, A, hV, G, hF, hM⟩ | ⟨hb, A, hV, G, hF, hN⟩
+  rcases hI.cases with ⟨hb, A, hV, G, hF, hP, hM⟩ | ⟨hb, A, hV, G, hF, hP, hN⟩
   · simp only [exec, hb, if_true]
     apply WP.pure
-    refine Post.brk hV G hF ?_ (fun _ _ => BConf.triv hc rfl)
+    refine Post.brk hV G hF hP ?_ (fun _ _ => BConf.triv hc rfl)
     intro er her
     cases hle : l.err with
     | none => rw [hle] at her; simp at her
@@ -200,20 +209,20 @@ theorem exec_forktryend {S : SC} (C : Checked S) {x : ExtRec} {l : L} {e : Env}
     rw [hpc] at hsucc
     rw [if_neg (by simp [isScope])] at hconf
     simp only [exec, hb]
-    exact fork_normal hV G hF hb herr (succ1 hsucc) hconf (fun err => BConf.triv hc rfl)
+    exact fork_normal hV G hF hP hb herr (succ1 hsucc) hconf (fun err => BConf.triv hc rfl)
 
 theorem exec_backtrack {S : SC} (C : Checked S) {x : ExtRec} {l : L} {e : Env}
     (hc : codeAt S l.pc = some .backtrack) (hI : Inv S l e) : WP (exec .backtrack x l) (Post S) e := by
   simp only [exec]
   apply WP.pure
-  rcases hI.cases with ⟨hb, A, hV, G, hF, hM⟩ | ⟨hb, A, hV, G, hF, hN⟩
-  · exact Post.brk_triv hV G hF hM hc rfl
-  · exact Post.brk hV G hF (by rw [hN.1]; exact eokO_none _ _) (fun _ _ => BConf.triv hc rfl)
+  rcases hI.cases with ⟨hb, A, hV, G, hF, hP, hM⟩ | ⟨hb, A, hV, G, hF, hP, hN⟩
+  · exact Post.brk_triv hV G hF hP hM hc rfl
+  · exact Post.brk hV G hF hP (by rw [hN.1]; exact eokO_none _ _) (fun _ _ => BConf.triv hc rfl)
 
 theorem exec_forktrybegin {S : SC} (C : Checked S) {t : Int} {x : ExtRec} {l : L} {e : Env}
     (hc : codeAt S l.pc = some (.forktrybegin t)) (hI : Inv S l e) :
     WP (exec (.forktrybegin t) x l) (Post S) e := by
-  rcases hI.cases with ⟨hb, A, hV, G, hF, hM⟩ | ⟨hb, A, hV, G, hF, hN⟩
+  rcases hI.cases with ⟨hb, A, hV, G, hF, hP, hM⟩ | ⟨hb, A, hV, G, hF, hP, hN⟩
   · have hB := hM.conf hc
     have hB' := hB
     unfold BConf at hB'
@@ -229,11 +238,11 @@ theorem exec_forktrybegin {S : SC} (C : Checked S) {t : Int} {x : ExtRec} {l : L
       obtain ⟨i, v, r, hstk⟩ := hconf.cons_of_pos hh
       obtain ⟨nx, hpop, hV1, G1, hv⟩ := pop_spec hV G hstk
       -- the state a `break` leaves is the restored one
-      have hre : ∀ (l' : L), l'.pc = l.pc → A.forks = [] → BConf S False l'.pc none A.stk A.frames := by
+      have hre : ∀ (l' : L), l'.pc = l.pc → A.forks = [] → BConf S False l'.pc none A.stk A.paths A.frames := by
         intro l' hl' hf
         rw [hl']
         unfold BConf; simp only [hc]
-        exact ⟨a, ha, hconf.mono (fun h => h hf) (Nat.le_refl _), fun hb => hp hb hf⟩
+        exact ⟨a, ha, hconf.mono (fun h => h hf), fun hb => hp hb hf⟩
       have hjump : ∀ (w : V), VOK S e w →
           WP (do let _ ← pop; push w; pure (Ctl.jump, { l with pc := t, backtrack := false, err := none }) : M (Ctl × L))
             (Post S) e := by
@@ -241,21 +250,21 @@ theorem exec_forktrybegin {S : SC} (C : Checked S) {t : Int} {x : ExtRec} {l : L
         apply WP.step hpop
         apply WP.step (push_eq _ _)
         apply WP.pure
-        exact Post.jump (hV1.push w) (G1.push hw) hF rfl
+        exact Post.jump (hV1.push w) (G1.push hw) hF hP rfl
           (NMode.of_succ (succ2 hsucc).2 rfl rfl hp (hconf.resize (by simp [hstk])))
       simp only [exec, hb, if_true]
       split
       · apply WP.pure
-        exact Post.brk hV G hF hM.1 (fun _ hne => by simp_all)
+        exact Post.brk hV G hF hP hM.1 (fun _ hne => by simp_all)
       · rename_i er her
         apply WP.pure
-        exact Post.brk hV G hF (fun er' h' => by
+        exact Post.brk hV G hF hP (fun er' h' => by
           simp only [Option.some.injEq] at h'; subst h'
           have := hM.1 _ her; simpa [eok] using this) (fun hf _ => hre _ rfl hf)
       · apply WP.pure
-        exact Post.brk hV G hF hM.1 (fun hf _ => hre _ rfl hf)
+        exact Post.brk hV G hF hP hM.1 (fun hf _ => hre _ rfl hf)
       · apply WP.pure
-        exact Post.brk hV G hF hM.1 (fun hf _ => hre _ rfl hf)
+        exact Post.brk hV G hF hP hM.1 (fun hf _ => hre _ rfl hf)
       · rename_i w her
         exact hjump w (by have := hM.1 _ her; simpa [eok] using this)
       · exact hjump _ rfl
@@ -268,7 +277,7 @@ theorem exec_forktrybegin {S : SC} (C : Checked S) {t : Int} {x : ExtRec} {l : L
       rw [hpc] at hsucc
       rw [if_neg (by simp [isScope])] at hconf
       simp only [exec, hb]
-      exact fork_normal hV G hF hb herr (succ2 hsucc).1 hconf (fun err => by
+      exact fork_normal hV G hF hP hb herr (succ2 hsucc).1 hconf (fun err => by
         unfold BConf; simp only [hc]; exact ⟨a, ha, hconf, hp⟩)
     · simp at hst
 
@@ -279,7 +288,7 @@ theorem goEq_label (w : V) (k : Int) : goEq w (.jv (.num (.int k))) ≠ .panic :
 theorem exec_forklabel {S : SC} (C : Checked S) {id i : Int} {x : ExtRec} {l : L} {e : Env}
     (hc : codeAt S l.pc = some (.forklabel id i)) (hI : Inv S l e) :
     WP (exec (.forklabel id i) x l) (Post S) e := by
-  rcases hI.cases with ⟨hb, A, hV, G, hF, hM⟩ | ⟨hb, A, hV, G, hF, hN⟩
+  rcases hI.cases with ⟨hb, A, hV, G, hF, hP, hM⟩ | ⟨hb, A, hV, G, hF, hP, hN⟩
   · have hB := hM.conf hc
     unfold BConf at hB
     simp only [hc] at hB
@@ -288,7 +297,7 @@ theorem exec_forklabel {S : SC} (C : Checked S) {id i : Int} {x : ExtRec} {l : L
     have hpost : ∀ (l' : L), l'.pc = l.pc → eokO S e.scopes.data.size l'.err → (l'.err ≠ none → l.err ≠ none) →
         Post S (.brk, l') { e with stack := { e.stack with index := nx } } := by
       intro l' hl' he hne
-      refine Post.brk hV1 G1 hF he ?_
+      refine Post.brk hV1 G1 hF hP he ?_
       intro hf hne'
       rw [hl']
       unfold BConf; simp only [hc]
@@ -344,7 +353,7 @@ theorem exec_forklabel {S : SC} (C : Checked S) {id i : Int} {x : ExtRec} {l : L
       apply WP.step hset
       apply WP.step (modifyEnv_eq _ _)
       apply WP.pure
-      refine Post.fall (hV2.fr ⟨rfl, rfl, rfl, rfl, rfl⟩) (G2.fr ⟨rfl, rfl, rfl, rfl, rfl⟩) ?_ hb ?_
+      refine Post.fall (hV2.fr ⟨rfl, rfl, rfl, rfl, rfl⟩) (G2.fr ⟨rfl, rfl, rfl, rfl, rfl⟩) ?_ (hP.pushfork _ _) hb ?_
       · refine ForksConf.cons (fun err => ?_) hF
         unfold BConf; simp only [hc]
         refine ⟨j, _, A.stk, rfl, .inr rfl, fun _ => ?_⟩
@@ -352,13 +361,13 @@ theorem exec_forklabel {S : SC} (C : Checked S) {id i : Int} {x : ExtRec} {l : L
         · obtain ⟨i', v', r', hs'⟩ := hconf.cons_of_pos h
           left; rw [hs']; simp
         · exact .inr (hp h)
-      · exact NMode.fall (succ1 hsucc) herr (fun _ => by simp) (hconf.mono (fun _ => by simp) (Nat.le_refl _))
+      · exact NMode.fall (succ1 hsucc) herr (fun _ => by simp) (hconf.mono (fun _ => by simp))
     · simp at hst
 
 /-! ## calls and frames -/
 
 theorem entry_ann {S : SC} (C : Checked S) {t : Int} {k : Nat} (h : entryHI S.code S.nvars t = some k) :
-    ∃ ins, codeAt S t = some ins ∧ isScope ins = true ∧ annAt S t = some ⟨k, false⟩ := by
+    ∃ ins, codeAt S t = some ins ∧ isScope ins = true ∧ annAt S t = some ⟨k, false, 0⟩ := by
   unfold entryHI at h
   split at h
   · rename_i h0
@@ -378,10 +387,10 @@ theorem entry_ann {S : SC} (C : Checked S) {t : Int} {k : Nat} (h : entryHI S.co
 
 theorem exec_call {S : SC} (C : Checked S) {t : Int} {x : ExtRec} {l : L} {e : Env}
     (hc : codeAt S l.pc = some (.call t)) (hI : Inv S l e) : WP (exec (.call t) x l) (Post S) e := by
-  rcases hI.cases with ⟨hb, A, hV, G, hF, hM⟩ | ⟨hb, A, hV, G, hF, hN⟩
+  rcases hI.cases with ⟨hb, A, hV, G, hF, hP, hM⟩ | ⟨hb, A, hV, G, hF, hP, hN⟩
   · simp only [exec, hb, if_true]
     apply WP.pure
-    exact Post.brk_triv hV G hF hM hc rfl
+    exact Post.brk_triv hV G hF hP hM hc rfl
   · obtain ⟨herr, a, succs, ha, hst, hsucc, hpc, hp, hconf⟩ := hN.unpack C hc
     simp only [step1] at hst
     split at hst
@@ -393,19 +402,25 @@ theorem exec_call {S : SC} (C : Checked S) {t : Int} {x : ExtRec} {l : L} {e : E
         rw [hpc] at hsucc
         rw [if_neg (by simp [isScope])] at hconf
         obtain ⟨ins, hct, hsc, hat⟩ := entry_ann C hk
-        obtain ⟨b, i, hb1, hb2, hb3, hb4, hb5⟩ := succ1 hsucc
+        obtain ⟨b, i, hb1, hb2, hb3, hb4, hb5, hb6⟩ := succ1 hsucc
         simp only [exec, hb]
         apply WP.step (getEnv_eq _)
         apply WP.pure
-        refine Post.jump hV G hF rfl ⟨herr, ⟨k, false⟩, ins, hat, hct, fun h => by simp at h, ?_⟩
+        refine Post.jump hV G hF hP rfl ⟨herr, ⟨k, false, 0⟩, ins, hat, hct, fun h => by simp at h, ?_⟩
         rw [if_pos hsc]
-        refine ⟨⟨hconf.2.1, .inl ⟨(codeAt_range hc).1, fun h => absurd h hconf.1, fun _ => ?_, ?_⟩⟩, ?_⟩
+        refine ⟨⟨hconf.fr, .inl ⟨(codeAt_range hc).1, fun h => absurd h hconf.ne, fun _ => ?_, ?_, ?_⟩⟩, ?_⟩
         · exact ⟨b, i, hb1, hb2, hb3, fun h => hp (hb5 h)⟩
         · have hA : hAfter S l.pc = b.h := by unfold hAfter; rw [hb1]
-          simp only [hconf.1, if_false]
+          simp only [hconf.ne, if_false]
           show k + (hAfter S l.pc - 1) + need S A.frames ≤ A.stk.length
-          have := hconf.2.2
+          have := hconf.len
           simp only at hb4
+          rw [hA]; omega
+        · have hA : pdAfter S l.pc = b.pd := by unfold pdAfter; rw [hb1]
+          simp only [hconf.ne, if_false]
+          show 0 + pdAfter S l.pc + needP S A.frames ≤ segs A.paths
+          have := hconf.plen
+          simp only at hb6
           rw [hA]; omega
         · exact hV.scopes.chain.index_lt
       · simp at hst
@@ -413,7 +428,7 @@ theorem exec_call {S : SC} (C : Checked S) {t : Int} {x : ExtRec} {l : L} {e : E
 
 theorem exec_callrec {S : SC} (C : Checked S) {t : Int} {x : ExtRec} {l : L} {e : Env}
     (hc : codeAt S l.pc = some (.callrec t)) (hI : Inv S l e) : WP (exec (.callrec t) x l) (Post S) e := by
-  obtain ⟨hb, A, hV, G, hF, hN⟩ := hI.elimN hc rfl
+  obtain ⟨hb, A, hV, G, hF, hP, hN⟩ := hI.elimN hc rfl
   obtain ⟨herr, a, succs, ha, hst, hsucc, hpc, hp, hconf⟩ := hN.unpack C hc
   simp only [step1] at hst
   split at hst
@@ -425,16 +440,18 @@ theorem exec_callrec {S : SC} (C : Checked S) {t : Int} {x : ExtRec} {l : L} {e 
       simp only [exec]
       apply WP.step (getEnv_eq _)
       apply WP.pure
-      refine Post.jump hV G hF hb ⟨herr, ⟨k, false⟩, ins, hat, hct, fun h => by simp at h, ?_⟩
+      refine Post.jump hV G hF hP hb ⟨herr, ⟨k, false, 0⟩, ins, hat, hct, fun h => by simp at h, ?_⟩
       rw [if_pos hsc]
-      refine ⟨⟨hconf.2.1, .inr ⟨rfl, ?_, ?_⟩⟩, hV.scopes.chain.index_lt⟩
+      refine ⟨⟨hconf.fr, .inr ⟨rfl, ?_, ?_, ?_⟩⟩, hV.scopes.chain.index_lt⟩
       · cases hfr : A.frames with
-        | nil => exact absurd hfr hconf.1
+        | nil => exact absurd hfr hconf.ne
         | cons q r =>
           have hs := hV.scopes
           rw [hfr] at hs
           exact ⟨q.1, q.2, r, rfl, (hs.index_cons (i := q.1) (v := q.2)).1⟩
-      · rw [hka]; exact hconf.2.2
+      · rw [hka]; exact hconf.len
+      · show 0 + needP S A.frames ≤ segs A.paths
+        have := hconf.plen; omega
     · simp at hst
   · simp at hst
 
@@ -444,7 +461,7 @@ theorem target_entry {S : SC} {t : Int} (h : S.target t = true) : entryHI S.code
 
 theorem exec_callpc {S : SC} (C : Checked S) {x : ExtRec} {l : L} {e : Env}
     (hc : codeAt S l.pc = some .callpc) (hI : Inv S l e) : WP (exec .callpc x l) (Post S) e := by
-  obtain ⟨hb, A, hV, G, hF, hN⟩ := hI.elimN hc rfl
+  obtain ⟨hb, A, hV, G, hF, hP, hN⟩ := hI.elimN hc rfl
   obtain ⟨herr, a, succs, ha, hst, hsucc, hpc, hp, hconf⟩ := hN.unpack C hc
   simp only [step1] at hst
   split at hst
@@ -455,7 +472,7 @@ theorem exec_callpc {S : SC} (C : Checked S) {x : ExtRec} {l : L} {e : Env}
     rw [if_neg (by simp [isScope])] at hconf
     obtain ⟨j, v, r, hstk⟩ := hconf.cons_of_pos (by omega)
     obtain ⟨nx, hpop, hV1, G1, hv⟩ := pop_spec hV G hstk
-    obtain ⟨b, i, hb1, hb2, hb3, hb4, hb5⟩ := succ1 hsucc
+    obtain ⟨b, i, hb1, hb2, hb3, hb4, hb5, hb6⟩ := succ1 hsucc
     simp only [exec]
     apply WP.step hpop
     split
@@ -463,17 +480,23 @@ theorem exec_callpc {S : SC} (C : Checked S) {x : ExtRec} {l : L} {e : Env}
       simp only [VOK, vok, Bool.and_eq_true, decide_eq_true_eq] at hv
       obtain ⟨ins, hct, hsc, hat⟩ := entry_ann C (target_entry hv.1)
       apply WP.pure
-      refine Post.jump hV1 G1 hF hb ⟨herr, ⟨1, false⟩, ins, hat, hct, fun h => by simp at h, ?_⟩
+      refine Post.jump hV1 G1 hF hP hb ⟨herr, ⟨1, false, 0⟩, ins, hat, hct, fun h => by simp at h, ?_⟩
       rw [if_pos hsc]
-      refine ⟨⟨hconf.2.1, .inl ⟨(codeAt_range hc).1, fun h => absurd h hconf.1, fun _ => ?_, ?_⟩⟩, hv.2⟩
+      refine ⟨⟨hconf.fr, .inl ⟨(codeAt_range hc).1, fun h => absurd h hconf.ne, fun _ => ?_, ?_, ?_⟩⟩, hv.2⟩
       · exact ⟨b, i, hb1, hb2, hb3, fun h => hp (hb5 h)⟩
       · have hA : hAfter S l.pc = b.h := by unfold hAfter; rw [hb1]
-        simp only [hconf.1, if_false]
+        simp only [hconf.ne, if_false]
         show 1 + (hAfter S l.pc - 1) + need S A.frames ≤ r.length
-        have := hconf.2.2
+        have := hconf.len
         rw [hstk] at this
         simp only [List.length_cons] at this
         simp only at hb4
+        rw [hA]; omega
+      · have hA : pdAfter S l.pc = b.pd := by unfold pdAfter; rw [hb1]
+        simp only [hconf.ne, if_false]
+        show 0 + pdAfter S l.pc + needP S A.frames ≤ segs A.paths
+        have := hconf.plen
+        simp only at hb6
         rw [hA]; omega
     · exact WP.panic rfl
   · simp at hst
@@ -522,9 +545,12 @@ theorem View.scope {e : Env} {A : AView} (hV : View e A) (sc : Scope) (vars : In
     View (scopeEnv sc vars e) { A with frames := ((e.scopes.push sc).index, sc) :: A.frames } := by
   obtain ⟨h1, h2, h3, _, _, _, _⟩ := growEnv_fields { e with scopes := e.scopes.push sc, offset := e.offset + vars }
   unfold scopeEnv
-  refine ⟨?_, ?_, ?_⟩
+  have hp : (growEnv { e with scopes := e.scopes.push sc, offset := e.offset + vars }).paths = e.paths := by
+    unfold growEnv; split <;> rfl
+  refine ⟨?_, ?_, ?_, ?_⟩
   · rw [h1, h3]; exact hV.stack
   · rw [h2, h3]; exact hV.scopes.push sc
+  · rw [hp, h3]; exact hV.paths
   · rw [h3]; exact hV.pcs
 
 theorem GInv.scope {S : SC} {e : Env} (G : GInv S e) {sc : Scope} {vars : Int} (hvars : 0 ≤ vars)
@@ -590,6 +616,12 @@ theorem need_cons (S : SC) (f : Int × Scope) (r : List (Int × Scope)) :
   | nil => simp [need]
   | cons g r => simp [need]
 
+theorem needP_cons (S : SC) (f : Int × Scope) (r : List (Int × Scope)) :
+    needP S (f :: r) = (if r = [] then 0 else pdAfter S f.2.pc) + needP S r := by
+  cases r with
+  | nil => simp [needP]
+  | cons g r => simp [needP]
+
 theorem FramesOK.cons_iff {S : SC} {p : Prop} (f : Int × Scope) (r : List (Int × Scope)) :
     FramesOK S p (f :: r) ↔ (r = [] → f.2.pc = S.size - 1) ∧ (r ≠ [] → RetPt S p f.2.pc) ∧ FramesOK S p r := by
   cases r with
@@ -597,9 +629,10 @@ theorem FramesOK.cons_iff {S : SC} {p : Prop} (f : Int × Scope) (r : List (Int 
   | cons g r => simp [FramesOK]
 
 /-- what the new frame needs of the registers and the frames below it -/
-def NewFrame (S : SC) (fne : Prop) (h : Nat) (cp : Int) (stk : List (Int × V)) (fr : List (Int × Scope)) : Prop :=
+def NewFrame (S : SC) (fne : Prop) (a : Abs) (cp : Int) (stk pa : List (Int × V)) (fr : List (Int × Scope)) : Prop :=
   FramesOK S fne fr ∧ (fr = [] → cp = S.size - 1) ∧ (fr ≠ [] → RetPt S fne cp) ∧
-  h + (if fr = [] then 0 else hAfter S cp - 1) + need S fr ≤ stk.length
+  a.h + (if fr = [] then 0 else hAfter S cp - 1) + need S fr ≤ stk.length ∧
+  a.pd + (if fr = [] then 0 else pdAfter S cp) + needP S fr ≤ segs pa
 
 theorem scope_stage1 {S : SC} {l : L} {e : Env} {A : AView} {a : Abs} (hV : View e A) (G : GInv S e)
     (hE : EntryConf S (A.forks ≠ []) l a A) :
@@ -607,16 +640,16 @@ theorem scope_stage1 {S : SC} {l : L} {e : Env} {A : AView} {a : Abs} (hV : View
           if l.callpc ≥ 0 then pure (l.callpc, l.index) else popscope
         else pure (l.callpc, e.scopes.index) : M (Int × Int))
       (fun p e1 => ∃ fr, View e1 { A with frames := fr } ∧ GInv S e1 ∧ p.2 = e1.scopes.index ∧
-        e1.scopes.data = e.scopes.data ∧ NewFrame S (A.forks ≠ []) a.h p.1 A.stk fr) e := by
+        e1.scopes.data = e.scopes.data ∧ NewFrame S (A.forks ≠ []) a p.1 A.stk A.paths fr) e := by
   obtain ⟨hfr, hE⟩ := hE
-  rcases hE with ⟨h0, h1, h2, h3⟩ | ⟨h0, ⟨i, s, r, hA, hi⟩, h3⟩
+  rcases hE with ⟨h0, h1, h2, h3, h4⟩ | ⟨h0, ⟨i, s, r, hA, hi⟩, h3, h4⟩
   · by_cases hidx : l.index = e.scopes.index
     · rw [if_pos hidx, if_pos h0]
       apply WP.pure
-      exact ⟨A.frames, hV, G, hidx, rfl, hfr, h1, h2, h3⟩
+      exact ⟨A.frames, hV, G, hidx, rfl, hfr, h1, h2, h3, h4⟩
     · rw [if_neg hidx]
       apply WP.pure
-      exact ⟨A.frames, hV, G, rfl, rfl, hfr, h1, h2, h3⟩
+      exact ⟨A.frames, hV, G, rfl, rfl, hfr, h1, h2, h3, h4⟩
   · have hs := hV.scopes
     rw [hA] at hs
     have hidx : l.index = e.scopes.index := by rw [hi]; exact (hs.index_cons).1.symm
@@ -625,10 +658,11 @@ theorem scope_stage1 {S : SC} {l : L} {e : Env} {A : AView} {a : Abs} (hV : View
     unfold WP
     rw [hpop]
     refine ⟨r, hV1, G1, hsi.symm, hd, ?_⟩
-    rw [hA] at hfr h3
+    rw [hA] at hfr h3 h4
     rw [FramesOK.cons_iff] at hfr
     rw [need_cons] at h3
-    exact ⟨hfr.2.2, hfr.1, hfr.2.1, by simp only at h3 ⊢; omega⟩
+    rw [needP_cons] at h4
+    exact ⟨hfr.2.2, hfr.1, hfr.2.1, by simp only at h3 ⊢; omega, by simp only at h4 ⊢; omega⟩
 
 theorem scope_stage2 {S : SC} {l : L} {e : Env} (G : GInv S e) (id : Int) (hi : l.index < e.scopes.data.size) :
     WP (if l.index ≥ 0 then
@@ -654,7 +688,7 @@ theorem scope_stage2 {S : SC} {l : L} {e : Env} (G : GInv S e) (id : Int) (hi : 
 theorem exec_scope {S : SC} (C : Checked S) {id vars nargs : Int} {x : ExtRec} {l : L} {e : Env}
     (hc : codeAt S l.pc = some (.scope id vars nargs)) (hI : Inv S l e) :
     WP (exec (.scope id vars nargs) x l) (Post S) e := by
-  obtain ⟨hb, A, hV, G, hF, hN⟩ := hI.elimN hc rfl
+  obtain ⟨hb, A, hV, G, hF, hP, hN⟩ := hI.elimN hc rfl
   obtain ⟨herr, a, succs, ha, hst, hsucc, hpc, hp, hconf⟩ := hN.unpack C hc
   simp only [step1] at hst
   split at hst
@@ -689,25 +723,26 @@ theorem exec_scope {S : SC} (C : Checked S) {id vars nargs : Int} {x : ExtRec} {
       · rfl
     have hV2 := hV1.scope ⟨id, e2.offset, cp, si, oi⟩ vars
     have G2 := G1.scope (sc := ⟨id, e2.offset, cp, si, oi⟩) hvars hlook rfl hsi hoi
-    refine Post.fall hV2 G2 hF hb (NMode.fall (succ1 hsucc) herr hp ?_)
-    obtain ⟨n1, n2, n3, n4⟩ := hNF
-    refine ⟨by simp, ?_, ?_⟩
+    refine Post.fall hV2 G2 hF hP hb (NMode.fall (succ1 hsucc) herr hp ?_)
+    obtain ⟨n1, n2, n3, n4, n5⟩ := hNF
+    refine ⟨by simp, ?_, ?_, ?_⟩
     · rw [FramesOK.cons_iff]; exact ⟨n2, n3, n1⟩
     · rw [need_cons]; simp only at n4 ⊢; omega
+    · rw [needP_cons]; simp only at n5 ⊢; omega
   · simp at hst
 
 theorem exec_ret {S : SC} (C : Checked S) {x : ExtRec} {l : L} {e : Env}
     (hc : codeAt S l.pc = some .ret) (hI : Inv S l e) : WP (exec .ret x l) (Post S) e := by
-  rcases hI.cases with ⟨hb, A, hV, G, hF, hM⟩ | ⟨hb, A, hV, G, hF, hN⟩
+  rcases hI.cases with ⟨hb, A, hV, G, hF, hP, hM⟩ | ⟨hb, A, hV, G, hF, hP, hN⟩
   · simp only [exec, hb, if_true]
     apply WP.pure
-    exact Post.brk_triv hV G hF hM hc rfl
+    exact Post.brk_triv hV G hF hP hM hc rfl
   · obtain ⟨herr, a, succs, ha, hst, hsucc, hpc, hp, hconf⟩ := hN.unpack C hc
     simp only [step1] at hst
     split at hst
     · rename_i hh
       rw [if_neg (by simp [isScope])] at hconf
-      obtain ⟨hne, hfr, hlen⟩ := hconf
+      obtain ⟨hne, hfr, hlen, hplen⟩ := hconf
       cases hA : A.frames with
       | nil => exact absurd hA hne
       | cons q r =>
@@ -715,6 +750,7 @@ theorem exec_ret {S : SC} (C : Checked S) {x : ExtRec} {l : L} {e : Env}
         obtain ⟨e1, hpop, hV1, G1, hsi, hd, _, _, _⟩ := popscope_spec hV G hA
         rw [hA, FramesOK.cons_iff] at hfr
         rw [hA, need_cons] at hlen
+        rw [hA, needP_cons] at hplen
         simp only [exec, hb]
         apply WP.step hpop
         simp only
@@ -734,7 +770,7 @@ theorem exec_ret {S : SC} (C : Checked S) {x : ExtRec} {l : L} {e : Env}
           obtain ⟨nx, hpop2, hV2, G2, _⟩ := pop_spec (A := { A with frames := [] }) hV1 G1 hstk
           apply WP.step hpop2
           apply WP.pure
-          exact ⟨_, hV2, G2, hF, hfr.1 rfl⟩
+          exact ⟨_, hV2, G2, hF, hP, hfr.1 rfl⟩
         | cons g r' =>
           have hs1 := hV1.scopes
           obtain ⟨gi, gs⟩ := g
@@ -746,14 +782,19 @@ theorem exec_ret {S : SC} (C : Checked S) {x : ExtRec} {l : L} {e : Env}
           simp only [hemp]
           apply WP.pure
           obtain ⟨b, ib, hb1, hb2, hb3, hb4⟩ := hfr.2.1 (by simp)
-          refine Post.fall hV1 G1 hF rfl ⟨herr, b, ib, hb1, hb2, hb4, ?_⟩
+          refine Post.fall hV1 G1 hF hP rfl ⟨herr, b, ib, hb1, hb2, hb4, ?_⟩
           rw [if_neg (by rw [hb3]; simp)]
-          refine ⟨by simp, hfr.2.2, ?_⟩
-          have hA' : hAfter S s.pc = b.h := by unfold hAfter; rw [hb1]
-          simp only [List.cons_ne_nil, if_false, reduceCtorEq] at hlen
-          simp only at hlen ⊢
-          rw [hA'] at hlen
-          omega
+          refine ⟨by simp, hfr.2.2, ?_, ?_⟩
+          · have hA' : hAfter S s.pc = b.h := by unfold hAfter; rw [hb1]
+            simp only [List.cons_ne_nil, if_false, reduceCtorEq] at hlen
+            simp only at hlen ⊢
+            rw [hA'] at hlen
+            omega
+          · have hA' : pdAfter S s.pc = b.pd := by unfold pdAfter; rw [hb1]
+            simp only [List.cons_ne_nil, if_false, reduceCtorEq] at hplen
+            simp only at hplen ⊢
+            rw [hA'] at hplen
+            omega
     · simp at hst
 
 end Gojq.SafeVM
